@@ -1,7 +1,7 @@
 (** Properties_C16.v — C16: wire primitives round-trip exactly and reject what they
     cannot represent.  Statements only; each is closed by [exact] of a lemma proved in
     the *Proofs.v files. *)
-From GW Require Import Base Wire WireProofs Civil CivilSweep CivilProofs Quote Utf8Proofs QuoteProofs.
+From GW Require Import Base Wire WireProofs Civil CivilSweep CivilProofs Quote Utf8Proofs QuoteProofs Href HrefProofs.
 Local Open Scope Z_scope.
 
 (** ** Depth (0, 1, infinity) *)
@@ -207,3 +207,60 @@ Theorem C16_etag_rejects_refuted : exists s t,
   /\ kf_etag_invalid_utf8 s (obs_of (etag_unmarshal s)) = true.
 Proof. exact etag_rejects_refuted. Qed.
 Print Assumptions C16_etag_rejects_refuted.
+
+(** ** Hrefs (internal.Href) *)
+
+(** any absolute path whose first segment is not empty, byte for byte; nothing else of
+    the URL is set by the decoder *)
+Theorem C16_href_roundtrip : forall p, href_in_domain p = true ->
+  href_unmarshal (href_marshal p) = Ok (HUrl (url_of_path p)).
+Proof. exact href_roundtrip. Qed.
+Print Assumptions C16_href_roundtrip.
+
+(** the text sent is a path-absolute of RFC 3986 (a Simple-ref of RFC 4918 8.3) denoting p *)
+Theorem C16_href_marshal_in_grammar : forall p, href_in_domain p = true ->
+  href_den (href_marshal p) = Some p /\ href_scope (href_marshal p) = true.
+Proof. exact href_marshal_in_grammar. Qed.
+Print Assumptions C16_href_marshal_in_grammar.
+
+(** percent-unescaping inverts percent-escaping, for paths and fragments, on every byte string *)
+Theorem C16_href_unescape_escape : forall m p, unescape (escape m p) = Some p.
+Proof. exact unescape_escape. Qed.
+Print Assumptions C16_href_unescape_escape.
+
+(** every path-absolute [ "?" query ] is accepted with the path it denotes *)
+Theorem C16_href_accepts_grammar : forall s p, href_den s = Some p ->
+  exists x, href_unmarshal s = Ok (HUrl x) /\ u_path x = p /\ u_fragment x = EmptyString
+            /\ u_scheme x = EmptyString /\ u_opaque x = EmptyString.
+Proof. exact href_accepts_grammar. Qed.
+Print Assumptions C16_href_accepts_grammar.
+
+(** in the scope of the specification (no scheme, no authority) the decoder accepts
+    exactly the lenient reading of a reference, with its path and fragment *)
+Theorem C16_href_accepts_iff_lenient_reading : forall s, href_scope s = true ->
+  match href_unmarshal s with
+  | Ok (HUrl x) => lax_den s = Some (u_path x, u_fragment x) /\ u_scheme x = EmptyString /\ u_opaque x = EmptyString
+  | Ok (HAuth _ _) => False
+  | Err _ => lax_den s = None
+  | Panic => False
+  end.
+Proof. exact href_unmarshal_scope. Qed.
+Print Assumptions C16_href_accepts_iff_lenient_reading.
+
+Theorem C16_href_never_panics : forall s, href_unmarshal s <> Panic.
+Proof. exact href_unmarshal_never_panics. Qed.
+Print Assumptions C16_href_never_panics.
+
+(** rejection side, in scope, except the listed finding C16-href-lenient ... *)
+Theorem C16_href_rejects_except_lenient : forall s v, href_scope s = true ->
+  kf_href_lenient s (hobs_of (href_unmarshal s)) = false ->
+  href_unmarshal s = Ok v -> exists x, v = HUrl x /\ href_den s = Some (u_path x).
+Proof. exact href_rejects_except_lenient. Qed.
+Print Assumptions C16_href_rejects_except_lenient.
+
+(** ... which is real: "/a b" (a raw space) is accepted *)
+Theorem C16_href_rejects_refuted : exists s x,
+  href_scope s = true /\ href_unmarshal s = Ok (HUrl x) /\ href_den s = None
+  /\ kf_href_lenient s (ObsOk (false, EmptyString, x)) = true.
+Proof. exact href_rejects_refuted. Qed.
+Print Assumptions C16_href_rejects_refuted.
